@@ -61,7 +61,7 @@ add("drop-save-geometry-step", F, "C04", "dfols/controller.py",
 add("incumbent-save-after-geometry", F, "C04", "dfols/controller.py",
     "        self.model.save_point(self.model.xopt(abs_coordinates=True), self.model.ropt(), self.model.nsamples[self.model.kopt],\n                              self.model.eval_num[self.model.kopt], x_in_abs_coords=True)\n",
     "", "C04-2")
-add("change-point-le", F, ["C04", "C17"], "dfols/model.py", "if allow_kopt_update and self.objval[k] < self.objopt():", "if allow_kopt_update and self.objval[k] > self.objopt():", "ORDER")
+add("change-point-le", F, ["C04", "C17"], "dfols/model.py", "if allow_kopt_update and (self.objval[k] < self.objopt() or np.isnan(self.objopt())):", "if allow_kopt_update and (self.objval[k] > self.objopt() or np.isnan(self.objopt())):", "ORDER")
 add("final-selection-ge", F, ["C04", "C17"], "dfols/model.py", "or self.objopt() <= self.objsave:", "or self.objopt() >= self.objsave:", "ORDER")
 add("return-bypasses-selection", F, ["C04", "C03"], "dfols/solver.py",
     "    return x, rvec, obj, jacmin, nsamples, control.nf, control.nx, nruns_so_far, exit_info, diagnostic_info, x_eval_num, jac_eval_nums",
@@ -121,7 +121,7 @@ add("x0-projection-conditional", F, ["C01", "C09"], "dfols/solver.py",
 add("h-gets-argsprox", F, "C06", "dfols/controller.py", "obj += self.h(remove_scaling(x, self.scaling_changes), *self.argsh)\n            # since m(0) = h(x)",
     "obj += self.h(remove_scaling(x, self.scaling_changes), *self.argsprox)\n            # since m(0) = h(x)", "C06-1")
 add("argsprox-field-crossed", F, "C06", "dfols/controller.py", "self.argsprox = argsprox\n", "self.argsprox = argsh\n", "C06-1")
-add("h-in-internal-frame", F, "C06", "dfols/model.py", "self.objval[k] += self.h(remove_scaling(self.xbase + x, self.scaling_changes), *self.argsh)", "self.objval[k] += self.h(self.xbase + x, *self.argsh)", "callback")
+add("h-in-internal-frame", F, "C06", "dfols/model.py", "self.objval[k] += self.h(remove_scaling(self.as_absolute_coordinates(x), self.scaling_changes), *self.argsh)", "self.objval[k] += self.h(self.xbase + x, *self.argsh)", "callback")
 add("star-argsprox-back", F, "C06", "dfols/trust_region.py", "g_Fu = gradient_Fu(xopt, g, H, u, prox_uh, d)", "g_Fu = gradient_Fu(xopt, g, H, u, prox_uh, d, *argsprox)", "C06-2")
 add("relative-box-projector", F, ["C06", "C13"], "dfols/controller.py", "proj = lambda x: pbox(x, self.model.xbase + self.model.sl, self.model.xbase + self.model.su)  # bounds in absolute coordinates, like x\n            d, gnew, crvmin = ctrsbox_sfista(self.model.xopt(abs_coordinates=True), gopt, np.zeros(H.shape), [proj], 1,",
     "proj = lambda x: pbox(x, self.model.sl, self.model.su)\n            d, gnew, crvmin = ctrsbox_sfista(self.model.xopt(abs_coordinates=True), gopt, np.zeros(H.shape), [proj], 1,", "projector-frame")
@@ -157,7 +157,7 @@ add("dykstra-prev-y-view", F, "C15", "dfols/util.py", "            prev_y = y[i,
 add("dykstra-accumulator-conditional", F, "C15", "dfols/util.py", "            cI += np.linalg.norm(prev_y - y[i,:])**2", "            if i > 0:\n                cI += np.linalg.norm(prev_y - y[i,:])**2", "C15-3")
 
 add("add-point-no-invalidation", F, "C16", "dfols/model.py",
-    "        if obj < self.objopt():\n            self.kopt = self.npt() - 1\n\n        self.factorisation_current = False", "        if obj < self.objopt():\n            self.kopt = self.npt() - 1\n", "C16-1")
+    "        if obj < self.objopt() or np.isnan(self.objopt()):\n            self.kopt = self.npt() - 1\n\n        self.factorisation_current = False", "        if obj < self.objopt() or np.isnan(self.objopt()):\n            self.kopt = self.npt() - 1\n", "C16-1")
 add("model-const-sign", F, "C16", "dfols/model.py", "        self.model_const += np.dot(self.model_jac, xbase_shift)", "        self.model_const -= np.dot(self.model_jac, xbase_shift)", "C16-3")
 add("xnew-not-rebased", F, "C16", "dfols/solver.py", "                xnew = xnew - base_shift  # before xopt is updated\n", "", "C16-3")
 add("controller-writes-kopt", F, "C16", "dfols/controller.py", "        self.last_successful_iter = 0\n        self.rhoend =", "        self.last_successful_iter = 0\n        self.model.kopt = 0\n        self.rhoend =", "C16-2")
@@ -339,8 +339,8 @@ add("s-hard-restart-npt-clamp-unconditional-order", S, ["C07", "C02"], "dfols/so
     "            if params(\"init.random_initial_directions\"):\n                pass\n            else:\n                npt = min((n + 1) * (n + 2) // 2, npt)\n")
 add("jacobian-view-modified-in-place", F, ["C16"], "dfols/model.py", "            norm_J_error = np.linalg.norm(self.model_jac - J_old, ord='fro')**2\n", "            norm_J_error = np.linalg.norm(self.model_jac - J_old, ord='fro')**2\n            dg /= right_scaling[:, np.newaxis]\n", "C16-5")
 add("s-jacobian-copy-then-in-place", S, ["C16", "C11"], "dfols/model.py", "        self.model_jac = dg[1:,:].T\n", "        self.model_jac = dg[1:,:].T.copy()\n        dg *= 1.0\n")
-add("eval-num-array-reallocated-float", F, ["C20"], "dfols/model.py", "        self.eval_num = np.append(self.eval_num, eval_num)  # add new evaluation number", "        self.eval_num = np.concatenate((self.eval_num, np.zeros((1,))))\n        self.eval_num[-1] = eval_num", "C20-7")
-add("s-eval-num-array-concatenate", S, ["C20"], "dfols/model.py", "        self.eval_num = np.append(self.eval_num, eval_num)  # add new evaluation number", "        self.eval_num = np.concatenate((self.eval_num, [eval_num]))")
+add("eval-num-array-reallocated-float", F, ["C20"], "dfols/model.py", "        self.eval_num = np.insert(self.eval_num, k, eval_num)  # add new evaluation number", "        self.eval_num = np.concatenate((self.eval_num[:k], np.zeros((1,)), self.eval_num[k:]))\n        self.eval_num[k] = eval_num", "C20-7")
+add("s-eval-num-array-concatenate", S, ["C20"], "dfols/model.py", "        self.eval_num = np.insert(self.eval_num, k, eval_num)  # add new evaluation number", "        self.eval_num = np.concatenate((self.eval_num[:k], [eval_num], self.eval_num[k:]))")
 add("nan-replacement-fast-path", F, ["C20"], "dfols/util.py", "    elif isinstance(d, list):\n        return [replace_nan_with_none(i) for i in d]", "    elif isinstance(d, list):\n        if len(d) > 0 and not math.isnan(min(d)):\n            return d\n        return [replace_nan_with_none(i) for i in d]", "C20-2b")
 add("diagnostic-table-indexed-per-run", F, ["C20"], "dfols/diagnostic_info.py", "        return pd.DataFrame(data_to_save)", "        return pd.DataFrame(data_to_save, index=self.data[\"iter_this_run\"])", "C20-5b")
 add("controller-state-in-class-body", F, ["C19"], "dfols/controller.py", "class Controller(object):\n", "class Controller(object):\n    last_iters_step_taken = []\n", "class-level-mutable")
@@ -366,11 +366,11 @@ add("s-lagrange-solution-renamed-and-copied", S, ["C16"], "dfols/model.py", "   
 add("running-mean-weight-one-sample-ahead", F, ["C17"], "dfols/model.py", "        t = float(self.nsamples[k]) / float(self.nsamples[k] + 1)\n", "        t = float(self.nsamples[k] + 1) / float(self.nsamples[k] + 2)\n", "C17-8")
 add("running-mean-weights-swapped", F, ["C17"], "dfols/model.py", "        self.fval_v[k, :] = t * self.fval_v[k, :] + (1 - t) * rvec_extra\n", "        self.fval_v[k, :] = (1 - t) * self.fval_v[k, :] + t * rvec_extra\n", "C17-8")
 add("running-mean-count-incremented-first", F, ["C17"], "dfols/model.py",
-    '        t = float(self.nsamples[k]) / float(self.nsamples[k] + 1)\n        self.fval_v[k, :] = t * self.fval_v[k, :] + (1 - t) * rvec_extra\n        # NOTE: how to sample when we have h? still at xpt(k), then add h(xpt(k)). Modify test if incorrect!\n        self.objval[k] = sumsq(self.fval_v[k, :])\n        if self.h is not None:\n            self.objval[k] += self.h(remove_scaling(self.xbase + self.points[k, :], self.scaling_changes), *self.argsh)\n        self.nsamples[k] += 1\n',
-    '        self.nsamples[k] += 1\n        t = float(self.nsamples[k]) / float(self.nsamples[k] + 1)\n        self.fval_v[k, :] = t * self.fval_v[k, :] + (1 - t) * rvec_extra\n        # NOTE: how to sample when we have h? still at xpt(k), then add h(xpt(k)). Modify test if incorrect!\n        self.objval[k] = sumsq(self.fval_v[k, :])\n        if self.h is not None:\n            self.objval[k] += self.h(remove_scaling(self.xbase + self.points[k, :], self.scaling_changes), *self.argsh)\n', "C17-8")
+    '        t = float(self.nsamples[k]) / float(self.nsamples[k] + 1)\n        self.fval_v[k, :] = t * self.fval_v[k, :] + (1 - t) * rvec_extra\n        # NOTE: how to sample when we have h? still at xpt(k), then add h(xpt(k)). Modify test if incorrect!\n        self.objval[k] = sumsq(self.fval_v[k, :])\n        if self.h is not None:\n            self.objval[k] += self.h(remove_scaling(self.as_absolute_coordinates(self.points[k, :]), self.scaling_changes), *self.argsh)\n        self.nsamples[k] += 1\n',
+    '        self.nsamples[k] += 1\n        t = float(self.nsamples[k]) / float(self.nsamples[k] + 1)\n        self.fval_v[k, :] = t * self.fval_v[k, :] + (1 - t) * rvec_extra\n        # NOTE: how to sample when we have h? still at xpt(k), then add h(xpt(k)). Modify test if incorrect!\n        self.objval[k] = sumsq(self.fval_v[k, :])\n        if self.h is not None:\n            self.objval[k] += self.h(remove_scaling(self.as_absolute_coordinates(self.points[k, :]), self.scaling_changes), *self.argsh)\n', "C17-8")
 add("s-running-mean-count-incremented-first-and-weights-adjusted", S, ["C17", "C03"], "dfols/model.py",
-    '        t = float(self.nsamples[k]) / float(self.nsamples[k] + 1)\n        self.fval_v[k, :] = t * self.fval_v[k, :] + (1 - t) * rvec_extra\n        # NOTE: how to sample when we have h? still at xpt(k), then add h(xpt(k)). Modify test if incorrect!\n        self.objval[k] = sumsq(self.fval_v[k, :])\n        if self.h is not None:\n            self.objval[k] += self.h(remove_scaling(self.xbase + self.points[k, :], self.scaling_changes), *self.argsh)\n        self.nsamples[k] += 1\n',
-    '        self.nsamples[k] += 1\n        t = float(self.nsamples[k] - 1) / float(self.nsamples[k])\n        self.fval_v[k, :] = t * self.fval_v[k, :] + (1 - t) * rvec_extra\n        # NOTE: how to sample when we have h? still at xpt(k), then add h(xpt(k)). Modify test if incorrect!\n        self.objval[k] = sumsq(self.fval_v[k, :])\n        if self.h is not None:\n            self.objval[k] += self.h(remove_scaling(self.xbase + self.points[k, :], self.scaling_changes), *self.argsh)\n')
+    '        t = float(self.nsamples[k]) / float(self.nsamples[k] + 1)\n        self.fval_v[k, :] = t * self.fval_v[k, :] + (1 - t) * rvec_extra\n        # NOTE: how to sample when we have h? still at xpt(k), then add h(xpt(k)). Modify test if incorrect!\n        self.objval[k] = sumsq(self.fval_v[k, :])\n        if self.h is not None:\n            self.objval[k] += self.h(remove_scaling(self.as_absolute_coordinates(self.points[k, :]), self.scaling_changes), *self.argsh)\n        self.nsamples[k] += 1\n',
+    '        self.nsamples[k] += 1\n        t = float(self.nsamples[k] - 1) / float(self.nsamples[k])\n        self.fval_v[k, :] = t * self.fval_v[k, :] + (1 - t) * rvec_extra\n        # NOTE: how to sample when we have h? still at xpt(k), then add h(xpt(k)). Modify test if incorrect!\n        self.objval[k] = sumsq(self.fval_v[k, :])\n        if self.h is not None:\n            self.objval[k] += self.h(remove_scaling(self.as_absolute_coordinates(self.points[k, :]), self.scaling_changes), *self.argsh)\n')
 add("running-mean-plain-half", F, ["C17"], "dfols/model.py", "        self.fval_v[k, :] = t * self.fval_v[k, :] + (1 - t) * rvec_extra\n", "        self.fval_v[k, :] = 0.5 * (self.fval_v[k, :] + rvec_extra)\n", "C17-8")
 add("s-running-mean-incremental-form", S, ["C17", "C03"], "dfols/model.py", "        self.fval_v[k, :] = t * self.fval_v[k, :] + (1 - t) * rvec_extra\n",
     "        self.fval_v[k, :] = self.fval_v[k, :] + (rvec_extra - self.fval_v[k, :]) / float(self.nsamples[k] + 1)\n")
